@@ -6,24 +6,27 @@ from .pipeline import *
 
 class StepAuthorization(PipelineBase):
     name='C02.step_authorization'
-    def __init__(self,nfun=2,nsig=1,unknown_pubkey=False,two_steps=False,**kw):
+    def __init__(self,nfun=2,nsig=1,unknown_pubkey=False,two_steps=False,same_name=False,**kw):
         PipelineBase.__init__(self,**kw)
-        self.nfun=nfun; self.nsig=nsig; self.unknown_pubkey=unknown_pubkey; self.two_steps=two_steps
-        self.bounds={'steps':2 if two_steps else 1,'functionary_pool':nfun,'threshold':'any u32 per step','layout_key_table':'any subset of the pool',
+        self.nfun=nfun; self.nsig=nsig; self.unknown_pubkey=unknown_pubkey; self.two_steps=two_steps or same_name; self.same_name=same_name
+        if same_name: self.name='C02.step_authorization_duplicate_step_names'
+        self.bounds={'steps':('2 with the same name (sharing their link files)' if same_name else (2 if two_steps else 1)),'functionary_pool':nfun,'threshold':'any u32 per step','layout_key_table':'any subset of the pool',
                      'step_pubkeys':'any subset of the pool'+(' + an id absent from the table' if unknown_pubkey else ''),
                      'files_per_step':'per pool key: absent or one link filed under that key-id prefix','signatures_per_link':'1..%d, each labelled with any pool key, free made_by/intact/over'%nsig,
                      'hash_map_iteration':'every permutation','owner_signature':'valid (C01 varies it)','clock':'unexpired (C06 varies it)'}
-        self.witnesses=['ok_thr1','ok_thr2','err_threshold_unmet','err_missing_links']
+        self.witnesses=['ok_thr1','ok_thr2','err_threshold_unmet','err_missing_links'] if not same_name else ['err_threshold_unmet']
     def mk_args(self,run):
         nfun=self.nfun; OWNER=nfun
         steps=[]; dirs={():[]}; info=[]
         for si in range(2 if self.two_steps else 1):
-            sname='s%d'%si
+            sname='s0' if self.same_name else 's%d'%si
             thr=Int(32,False,z3.BitVec('thr_%s'%sname,32))
             pub=[k for k in range(nfun) if run.pick(2,'pub%d_%d'%(si,k))]
             if self.unknown_pubkey and run.pick(2,'pubunk%d'%si): pub.append(UNKNOWN)
             files={}
-            for k in range(nfun):
+            if self.same_name and si==1:
+                files=info[0][2]           # both steps share the name, hence the link files
+            for k in ([] if (self.same_name and si==1) else range(nfun)):
                 if not run.pick(2,'file%d_%d'%(si,k)): continue
                 ns=1+run.pick(self.nsig,'nsig%d_%d'%(si,k))
                 sigs=[]
